@@ -31,7 +31,7 @@ NOT_DECIDED = ["sample(c*x) == sample(x) is proved for the estimator layer (rati
 ASSUMPTIONS = []
 
 
-def two_binnings(ctx, closed_a="right", closed_b="right"):
+def two_binnings(ctx, closed_a="left", closed_b="left"):   # not the library default: a lost closed= argument shows
     ba, nba = CC.make_binning(ctx, closed_a, hint="edges_a")
     nbb = ctx.fresh_int("num_bins_b", lo=1, size=True)
     bb, _ = CC.make_binning(ctx, closed_b, nb=nbb, hint="edges_b")
